@@ -262,6 +262,10 @@ def main(argv=None):
         return undecided("spec drift: %s" % ex)
     except EngineError as ex:
         return undecided("engine: %s" % ex)
+    except (TypeError, AttributeError) as ex:
+        if os.environ.get("PYVC_DEBUG"):
+            raise
+        return undecided("spec drift: a contract no longer fits the values the code produces (%s)" % ex)
     if a.dump:
         for o in obls:
             if re.search(a.dump, o.name):
